@@ -51,6 +51,10 @@ type GhostVar struct {
 	Name string
 	Sort string
 	Pkg  string
+	// Scratch ghosts carry a fact from one call to the code right after it ("the value the last
+	// Get returned"): every call havocs them unless its contract says otherwise, and they are
+	// exempt from frame obligations.
+	Scratch bool
 }
 
 type GlobalInv struct {
@@ -336,7 +340,12 @@ func (cs *Contracts) parseContractLines(lines []string, file string, pkgPath str
 			if len(f) != 2 {
 				return fmt.Errorf("%s: bad ghost decl", where)
 			}
-			cs.Ghosts[f[0]] = &GhostVar{Name: f[0], Sort: strings.TrimSpace(f[1]), Pkg: pkgPath}
+			gv := &GhostVar{Name: f[0], Sort: strings.TrimSpace(f[1]), Pkg: pkgPath}
+			if strings.HasSuffix(gv.Sort, " scratch") {
+				gv.Scratch = true
+				gv.Sort = strings.TrimSpace(strings.TrimSuffix(gv.Sort, " scratch"))
+			}
+			cs.Ghosts[f[0]] = gv
 		case "global":
 			lastClause = &Clause{Text: rest, Where: where}
 			lastKind = "global"
